@@ -179,8 +179,10 @@ where
 
         let result = self.run(ctx);
 
-        cleanup(ctx.state_mut(), key_ident, old_key);
+        // Restore in reverse order of insertion: with `|x, x|` the value binding shadowed the
+        // key binding, and the outer `x` must win at the end.
         cleanup(ctx.state_mut(), value_ident, old_value);
+        cleanup(ctx.state_mut(), key_ident, old_key);
 
         result
     }
@@ -208,8 +210,8 @@ where
 
         let result = self.run(ctx);
 
-        cleanup(ctx.state_mut(), index_ident, old_index);
         cleanup(ctx.state_mut(), value_ident, old_value);
+        cleanup(ctx.state_mut(), index_ident, old_index);
 
         result
     }
